@@ -37,6 +37,9 @@ func c05Types() []string {
 	return out
 }
 
+// c05Concurrent is set by c05conc_test.go (build tag vsync, see bin/check).
+var c05Concurrent func(run *rep.Run)
+
 var c05Routes = []string{"ParseType", "TranslateType", "LookupByValue", "zngio.Decode"}
 
 // c05Make creates the type denoted by text in zctx through the given route.
@@ -237,7 +240,11 @@ func TestC05(t *testing.T) {
 	})
 	run.Set("exhaustive", true)
 	run.Set("rule", "types: 80 types to depth 2 over every kind with two field names, two type names each bound to two inner types, references to an earlier binding, unions and enums in different member orders; histories: every single creation, every ordered pair of types x every pair of creation routes {zson.ParseType, TranslateType from a foreign context, LookupByValue of a foreign type value (whose buffer the caller then overwrites), decoding from a ZNG stream}, and triples over a 10-type core (rebinding of one name, union orders) x route triples (quick: every fifth). After every step: the type denotes the requested structure; structurally equal <=> same object <=> same id for all pairs created so far; the type value equals that of the same structure built alone in a fresh context and never changes afterwards; translation to another context and back returns the same object; decoding the type value elsewhere is structurally equal; all 24 member orders of a 4-member union give one object")
-	run.Assume("interleavings of concurrent lookups inside one Context call are not explored here (they need the Context mutex instrumented); API-call-level interleavings are covered because histories are executed in every order")
+	if c05Concurrent != nil {
+		c05Concurrent(run)
+	} else {
+		run.Assume("lock-level interleavings of concurrent Context calls were not explored in this run (the build overlay for context.go could not be applied); API-call-level orders are covered because histories are executed in every order")
+	}
 }
 
 func uniq(ss []string) []string {
